@@ -5,7 +5,7 @@ from common import Fr, enc_f, dec_f, close, rng
 import rggen
 
 LEAN_MODULE = 'PGM.Properties.C18'
-LEAN_EXTRA = ['PGM.Properties.C18G', 'PGM.Properties.C18E']
+LEAN_EXTRA = ['PGM.Properties.C18G', 'PGM.Properties.C18E', 'PGM.Properties.C18H']
 TRANSLATORS = ('py2local', 'py2fg', 'py2rg')    # local_inference.py (mirror_descent_auto, mirror_descent, estimate, _marginal_loss, _setup) -> Generated/LocalG.lean, proved equal to Model/Local.lean + LocalPy.lean
 TRUSTED = ['Lean 4.33 kernel', 'axioms: propext, Classical.choice, Quot.sound',
            'the marginal oracles called inside LocalInference are the ones modelled in PGM/Model/RegionGraph.lean / FactorGraph.lean; their calls '
